@@ -229,8 +229,13 @@ def rule_own(chk):
     # other tasks skipped
     UU = p.fold_global(p.mod("_message"), "TASK_UUID_FIELD")
     uparam = fm.params[1]
-    skip = [n for n in region if n.kind == "continue" and any(t.kind == "test" and "!=" in unparse(t.exprs[0]) and uparam in unparse(t.exprs[0]) and lab == "true" for t, lab in cfg.guards_of(n))]
-    if not skip:
+    def same_task(e, lab):
+        op = X.compare_of(e, lambda x: isinstance(x, ast.Subscript) and isinstance(x.value, ast.Name) and x.value.id == lv and ctx.try_fold(fm, x.slice) == (True, UU),
+                          lambda x: isinstance(x, ast.Name) and x.id == uparam)
+        return (op is ast.Eq and lab == "true") or (op is ast.NotEq and lab == "false")
+    # everything that classifies a message happens only for messages of this task
+    acting = start_as + end_as + [n for n in region for c, m in calls_in_node(n) if isinstance(c.func, ast.Attribute) and c.func.attr == "append"]
+    if not acting or not all(any(same_task(e, lab) for e, lab in guard_facts(n)) for n in acting):
         problems.append("messages of other tasks (different task_uuid) are not skipped")
     # recursion with the full list
     rec = [(n, c) for n in region for c, m in calls_in_node(n) if fm in ctx.targets(fm, c)]
@@ -270,8 +275,12 @@ def rule_preorder(chk):
     tt = ctx.func("testing", "LoggedAction.type_tree")
     tcfg = ctx.cfg(tt)
     loops = [n for n in tcfg.live if n.kind == "for_next" and unparse(n.ast.iter) == "self.children"]
+    comps = [x for x in iter_own_nodes(tt.node) if isinstance(x, (ast.ListComp, ast.GeneratorExp)) and len(x.generators) == 1 and unparse(x.generators[0].iter) == "self.children"]
     okt = len(loops) == 1
-    if okt:
+    if not loops and len(comps) == 1:
+        # one element per child, in children order: a comprehension over self.children without a filter
+        okt = not comps[0].generators[0].ifs
+    elif okt:
         region = common.loop_region(tcfg, loops[0])
         apps = [c for n in region for c, m in calls_in_node(n) if isinstance(c.func, ast.Attribute) and c.func.attr == "append"]
         body = [s for s, l in loops[0].succ if l == "body"]
@@ -300,7 +309,13 @@ def rule_first(chk):
             if not (len(c.args) == 2 and unparse(c.args[0]) == "%s.messages" % f.params[1] and isinstance(c.args[1], ast.Name) and c.args[1].id == f.params[2]):
                 problems.append("the entries are not taken from logger.messages for the requested type")
         if lst:
-            firsts = [n for n in cfg.live if isinstance(n.ast, ast.Assign) and isinstance(n.ast.value, ast.Subscript) and unparse(n.ast.value) == "%s[0]" % lst]
+            def is_first(e):
+                return isinstance(e, ast.Subscript) and isinstance(e.value, ast.Name) and e.value.id == lst and ctx.try_fold(f, e.slice) == (True, 0)
+            named = [n for n in cfg.live if isinstance(n.ast, ast.Assign) and is_first(n.ast.value) and isinstance(n.ast.targets[0], ast.Name)]
+            firsts = named or [n for n in cfg.live if any(is_first(x) for e in n.exprs for x in ast.walk(e))]
+            bad_index = [x for n in cfg.live for e in n.exprs for x in ast.walk(e) if isinstance(x, ast.Subscript) and isinstance(x.value, ast.Name) and x.value.id == lst and not is_first(x)]
+            if bad_index:
+                problems.append("takes %s instead of the first entry" % unparse(bad_index[0]))
             asserts = [n for n in cfg.live for c, m in calls_in_node(n) if isinstance(c.func, ast.Attribute) and c.func.attr == "assertTrue" and c.args and unparse(c.args[0]) == lst]
             if not firsts:
                 problems.append("does not take element 0 of the entries")
@@ -315,7 +330,8 @@ def rule_first(chk):
                 if not any(len(c.args) == 2 and {unparse(c.args[0]).split(".")[-1], unparse(c.args[1]).split(".")[-1]} >= {"succeeded"} and f.params[3] in (unparse(c.args[0]), unparse(c.args[1])) for c in eqs):
                     problems.append("the outcome is not compared with the expected `succeeded` flag")
             rets = common.returns_of(cfg)
-            if firsts and not all(isinstance(r.ast.value, ast.Name) and r.ast.value.id == firsts[0].ast.targets[0].id for r in rets):
+            first_name = named[0].ast.targets[0].id if named else None
+            if firsts and not all((first_name and isinstance(r.ast.value, ast.Name) and r.ast.value.id == first_name) or is_first(r.ast.value) for r in rets):
                 problems.append("does not return the first entry")
         chk.req(not problems, "C17.first", "%s:first-entry-outcome-superset" % q, chk.where(f), good="first entry of the type; asserted non-empty; fields compared as superset", fail="; ".join(problems))
     acf = ctx.func("testing", "assertContainsFields")
